@@ -231,8 +231,25 @@ def run(spec, ctx):
     fields, raw = OC.observe_fields(om, named)
     rel_list = OC.observe_graph(named, SymbolGraph())
     rel = set(rel_list)
+    duplicate_problems = []
     if len(rel_list) != len(rel):
         C["parallel_duplicate_edges"] += len(rel_list) - len(rel)
+        dup = sorted({t for t in rel_list if rel_list.count(t) > 1})
+        duplicate_problems.append(f"the graph holds the same relation more than once: {dup[:4]}")
+    order_ = [(s_, f_, o_) for s_, f_, o_, _ in spec["facts"]]
+    for (n_, f_), vals in raw.items():
+        if f_ in ("members",) or len(vals) == len(set(vals)):
+            continue
+        for o_ in {v for v in vals if vals.count(v) > 1}:
+            # a list legitimately holds an element twice when it was inferred first and asserted afterwards (the
+            # assertion appends like any append); asserted once and not derivable before, it is there once
+            if (n_, f_, o_) in order_:
+                before = set(order_[:order_.index((n_, f_, o_))])
+                if (n_, f_, o_) in OC.closure(before, kinds, taker):
+                    continue
+            elif vals.count(o_) <= 1:
+                continue
+            duplicate_problems.append(f"{n_}.{f_} holds {o_} {vals.count(o_)} times: {vals} (asserted at most once, not derivable before)")
     # single-valued fields with several derivable values: membership only
     singles = {}
     for (s, f, o) in exp:
@@ -241,7 +258,7 @@ def run(spec, ctx):
     multi = {k for k, v in singles.items() if len(v) > 1}
     e_f = {t for t in exp if (t[0], t[1]) not in multi}
     g_f = {t for t in fields if (t[0], t[1]) not in multi}
-    problems = []
+    problems = list(duplicate_problems)
     for (s, f) in multi:
         got = {t[2] for t in fields if t[0] == s and t[1] == f}
         if len(got) != 1 or not got <= singles[(s, f)]:
